@@ -551,6 +551,21 @@ func c13Scripted(r *Run, idx int) {
 	fail := func(key, what string, extra any) {
 		r.Violate(key, label+": "+what, map[string]any{"detail": extra})
 	}
+	// a loader that returns a negative TTL (expiresAt - now, computed a moment too late): a Set with that TTL stores
+	// a value that is never served, so the loaded value is handed to the callers of this load and the next Get loads again
+	{
+		specs[99] = spec{cost: 1, ttl: -time.Duration(1+rng.Intn(5000)) * time.Millisecond}
+		g := e.get(99)
+		e.lc.Wait()
+		if g.Kind == "value" && g.Leader {
+			if g2 := e.get(99); !g2.Leader && g2.Kind == "value" {
+				fail("load-not-admitted-as-a-set/negative-ttl-served-from-the-cache", fmt.Sprintf("the loader returned TTL %v for key 99; the next Get was answered from the cache (%#x) instead of loading again - SetWithTTL with that TTL stores a value that is never served", specs[99].ttl, g2.Val), g2)
+			}
+			r.Count("loads_with_a_negative_ttl_checked", 1)
+		}
+		e.lc.Delete(99)
+		e.lc.Wait()
+	}
 	used := 0
 	var ttlKeys []int
 	for k := 1; k <= 12; k++ {
